@@ -226,6 +226,17 @@ def check_list(pe, acc, lst, pi, full_perms):
                 if not ok:
                     continue
                 bad = check_smoothing(corr, sm, E)
+                if not bad:
+                    # the same admissible E handed over as a numpy integer is the same request
+                    for tp in (np.int64, np.int32, np.uint8):
+                        try:
+                            sm2 = pe.covariance(ol, correlation=True, smooth=tp(E))
+                            if not np.array_equal(sm2, sm):
+                                bad = ('integer-type', 'smooth=%s(%d) gives another matrix than smooth=%d (max difference %g)' % (tp.__name__, E, E, np.max(np.abs(sm2 - sm))))
+                        except Exception as e:
+                            bad = ('integer-type', 'smooth=%s(%d) raised %s: %s' % (tp.__name__, E, type(e).__name__, e))
+                        if bad:
+                            break
                 if bad:
                     acc.fail('smooth:' + bad[0], dict(sub, E=E), 'list %s E=%d: %s' % ([names[i] for i in lst], E, bad[1]))
                     return
@@ -327,6 +338,42 @@ def run_overlaps(pe, acc, case):
                             acc.fail('overlap:pearson', sub, '%s chain, partner %s with %d common configuration(s), carriers %s/%s, params %s: %s' % (bname, pname, m, ca, cb, PARAMS[pi], bad))
                         else:
                             acc.ok(('ov', bname, m, pname, ca, cb, pi), True, 'overlap-ok')
+    # observables without error (constant data, an external input with variance zero) among the list members, at every position:
+    # the rest of the matrix is the matrix of the list without them, their rows and columns are zero, the statements about the
+    # diagonal hold
+    full = OVERLAP_BASES['contiguous']
+    a = pe.Obs([alpha.data('ar1', full, alpha.rng('c06z', 'a'), 1.0, 0.1)], ['A|r1'], idl=[alpha.idl_carrier(full)])
+    b = pe.Obs([alpha.data('white', full, alpha.rng('c06z', 'b'), 0.5, 0.2)], ['A|r1'], idl=[alpha.idl_carrier(full)]) + 0.4 * a
+    cq = pe.cov_Obs(0.7, 0.04, 'cz1') * 1.0
+    zs = {'constant-data': pe.Obs([np.full(len(full), 2.5)], ['A|r1'], idl=[alpha.idl_carrier(full)]), 'zero-variance-input': pe.cov_Obs(1.0, 0.0, 'cz0'),
+          'constant-on-other-ensemble': pe.Obs([np.full(8, -1.0)], ['Z|r1'])}
+    with warnings.catch_warnings():
+        warnings.simplefilter('ignore')
+        for o in [a, b, cq] + list(zs.values()):
+            o.gamma_method()
+        base = [a, b, cq]
+        ref_cov, ref_corr = pe.covariance(base), pe.covariance(base, correlation=True)
+        for zn, z in zs.items():
+            for pos in range(len(base) + 1):
+                lst = base[:pos] + [z] + base[pos:]
+                keep = [i for i in range(len(lst)) if i != pos]
+                sub = dict(case, zero=zn, pos=pos)
+                try:
+                    cov, corr = pe.covariance(lst), pe.covariance(lst, correlation=True)
+                except Exception as e:
+                    acc.fail('cov:zero-error-member', sub, 'list with a %s observable at position %d raised %s: %s' % (zn, pos, type(e).__name__, e))
+                    continue
+                bad = None
+                if not np.allclose(cov[np.ix_(keep, keep)], ref_cov, rtol=1e-12, atol=0) or not np.allclose(corr[np.ix_(keep, keep)], ref_corr, rtol=1e-12, atol=1e-15):
+                    bad = 'the entries of the other observables changed: %s instead of %s' % (cov[np.ix_(keep, keep)].tolist(), ref_cov.tolist())
+                elif not np.all(cov[pos, :] == 0.0) or not np.all(cov[:, pos] == 0.0):
+                    bad = 'row / column of the observable without error: %s' % cov[pos, :].tolist()
+                elif not np.allclose(np.diag(corr), 1.0, atol=1e-12) or not np.all(np.abs(corr) <= 1 + 1e-12) or not np.all(corr[pos, keep] == 0.0):
+                    bad = 'correlation matrix %s' % corr.tolist()
+                if bad:
+                    acc.fail('cov:zero-error-member', sub, 'list with a %s observable (error 0) at position %d: %s' % (zn, pos, bad))
+                else:
+                    acc.ok(('zero', zn, pos), True, 'zero-error-member-ok')
     acc.sample({'kind': 'overlaps', 'bases': sorted(OVERLAP_BASES), 'common': [0, 1, 2, 3], 'where': ['after', 'before', 'interior']})
 
 
